@@ -212,6 +212,39 @@ theorem ell_new (x : List α) : Gen.EllipsoidART.new_weight x = ellNew x := rfl
 
 /-! ### Decision logic: match tracking, comparison operator, supervised veto -/
 
+/-! ### Gaussian ART (with the model's `Transc.exp` / `Transc.sqrt`) -/
+
+theorem gauss_lik (alpha : α) (dim : Nat) (allW : List (List α)) (x w : List α) :
+    Gen.GaussianART.category_choice_cache_exp_dist_sig_dist Transc.exp allW dim alpha x w = gaussLik dim x w := by
+  unfold Gen.GaussianART.category_choice_cache_exp_dist_sig_dist gaussLik gaussMean gaussInv
+  have h2 : (2 : α) = 1 + 1 := by norm_num
+  have hd : 3 * dim - 2 * dim = dim := by omega
+  simp only [h2, hd]
+
+/-- activation: likelihood over `(alpha + sqrt det)` times the prior `n / sum of all counts` -/
+theorem gauss_choice (alpha : α) (dim : Nat) (allW : List (List α)) (x w : List α) :
+    Gen.GaussianART.category_choice Transc.exp allW dim alpha x w = gaussChoice alpha dim allW x w := by
+  unfold Gen.GaussianART.category_choice gaussChoice gaussLik gaussMean gaussInv gaussSqrtDet gaussCount
+  have h2 : (2 : α) = 1 + 1 := by norm_num
+  have hd : 3 * dim - 2 * dim = dim := by omega
+  simp only [h2, hd]
+
+/-- the match value is the cached likelihood term -/
+theorem gauss_match (alpha : α) (dim : Nat) (allW : List (List α)) (x w : List α) :
+    Gen.GaussianART.match_criterion
+        (Gen.GaussianART.category_choice_cache_exp_dist_sig_dist Transc.exp allW dim alpha x w) x w = gaussLik dim x w := by
+  unfold Gen.GaussianART.match_criterion
+  exact gauss_lik alpha dim allW x w
+
+theorem gauss_update (dim : Nat) (x w : List α) :
+    Gen.GaussianART.update Transc.sqrt dim x w = gaussUpdate dim x w := by
+  unfold Gen.GaussianART.update gaussUpdate gaussMean gaussSigma gaussCount
+  have hd : 2 * dim - dim = dim := by omega
+  simp only [hd]
+
+theorem gauss_new (sigmaInit x : List α) :
+    Gen.GaussianART.new_weight Transc.sqrt sigmaInit x = gaussNew sigmaInit x := rfl
+
 section Logic
 variable {β : Type} [Field β] [LinearOrder β] [IsStrictOrderedRing β]
 
